@@ -133,6 +133,51 @@ def gen_C09(v, n):
     return out
 
 
+def gen_C07(v, n):
+    rng = v.rng
+    sg = SearchGen(v)
+    out = [_op("C07", {"s": sg.search(allow_gt=rng.random() < 0.3)}) for _ in range(n)]
+    for s in ["bla?foo=bar", "hamlet/*/*?type=s", "x:y:z", "hamlet/a/**", "hamlet/**", "hamlet/s/**/ma", "junk?project=hamlet",
+              "hamlet/a/char/**/maya", "hamlet/a,s/*", "hamlet/a/char/x/model/v001/w/maya", "hamlet/**/**", "junk/**", "hamlet/a/char/x/**/movie?state=p"]:
+        out.append(_op("C07", {"s": s}))
+    return out
+
+
+def gen_C05(v, n):
+    rng = v.rng
+    sids = families.concrete_path_sids(v, n, backed_only=False)
+    out = []
+    for i, (label, s, fields) in enumerate(sids):
+        s2 = sids[rng.randrange(len(sids))][1]
+        if rng.random() < 0.3:   # a near neighbour: one field changed
+            f2 = list(fields)
+            j = rng.randrange(len(f2))
+            f2[j] = (f2[j][0], v.value((f2[j][0], dict(v.tdict[label])[f2[j][0]]), concrete_only=True))
+            s2 = "/".join(val for _, val in f2)
+        out.append(_op("C05", {"s": rng.choice([s, s, s, label + ":" + s]), "s2": s2}))
+    return out
+
+
+def gen_C06(v, n, model):
+    rng = v.rng
+    configs = sorted(v.paths.keys())
+    sids = families.concrete_path_sids(v, max(1, n // 4))
+    ask = []
+    for label, s, fields in sids:
+        for cfg in configs:
+            ask.append({"op": "sid_call", "from": {"s": s}, "m": "path", "config": cfg})
+    out = []
+    for a_op, a in zip(ask, model(ask)):
+        p = a.get("ok")
+        if not p:
+            continue
+        cfg = a_op["config"]
+        out.append(_op("C06", {"path": p, "config": cfg}))
+        for _ in range(2):
+            out.append(_op("C06", {"path": families.mutate_path(v, p), "config": rng.choice([cfg, cfg, None] + configs)}))
+    return out
+
+
 def _leaf_strings(leaves):
     return ["/".join(val for _, val in f) for _, f in leaves]
 
